@@ -11,6 +11,7 @@ from numpy.typing import NDArray  # noqa: TC002
 from ropt.config.enopt import EnOptConfig
 from ropt.ensemble_evaluator import EnsembleEvaluator
 from ropt.enums import EventType, OptimizerExitCode
+from ropt.exceptions import OptimizationAborted
 from ropt.optimization import EnsembleOptimizer
 from ropt.plan import Event, Plan
 from ropt.plugins.plan.base import PlanStep
@@ -90,14 +91,32 @@ class DefaultOptimizerStep(PlanStep):
         self._nested_optimization = nested_optimization
         self._metadata = metadata
 
-        self.emit_event(
-            Event(
-                event_type=EventType.START_OPTIMIZER_STEP,
-                config=self._config,
-                source=self.id,
-            )
-        )
+        # An observer or handler may abort while a step event is delivered:
+        exit_code = self._emit_step_event(EventType.START_OPTIMIZER_STEP)
+        if exit_code is None:
+            exit_code = self._run_optimizer(variables)
 
+        if exit_code == OptimizerExitCode.USER_ABORT:
+            self.plan.abort()
+
+        abort_code = self._emit_step_event(EventType.FINISHED_OPTIMIZER_STEP)
+        if abort_code is not None:
+            exit_code = abort_code
+            if exit_code == OptimizerExitCode.USER_ABORT:
+                self.plan.abort()
+
+        return exit_code
+
+    def _emit_step_event(self, event_type: EventType) -> OptimizerExitCode | None:
+        try:
+            self.emit_event(
+                Event(event_type=event_type, config=self._config, source=self.id)
+            )
+        except OptimizationAborted as exc:
+            return exc.exit_code
+        return None
+
+    def _run_optimizer(self, variables: ArrayLike | None) -> OptimizerExitCode:
         if variables is None:
             variables = self._config.variables.initial_values
         variables = np.array(np.asarray(variables, dtype=np.float64), ndmin=1)
@@ -123,20 +142,7 @@ class DefaultOptimizerStep(PlanStep):
             msg = "Nested optimization detected: parallel evaluation not supported. "
             raise RuntimeError(msg)
 
-        exit_code = ensemble_optimizer.start(variables)
-
-        if exit_code == OptimizerExitCode.USER_ABORT:
-            self.plan.abort()
-
-        self.emit_event(
-            Event(
-                event_type=EventType.FINISHED_OPTIMIZER_STEP,
-                config=self._config,
-                source=self.id,
-            )
-        )
-
-        return exit_code
+        return ensemble_optimizer.start(variables)
 
     def emit_event(self, event: Event) -> None:
         """Emit an event.
